@@ -49,6 +49,9 @@ func runC16(c *Ctx) {
 	c.rule("set-guard", "every reflect Set / Append / SetMapIndex in transform, parse, tagformat, env: the value's type is tied to the destination's by a dominating AssignableTo / ConvertibleTo / type-equality test, by Convert to the destination type, or by construction from the same reflect.Type", 15)
 	c.rule("convert-guard", "every reflect.Value.Convert in transform, parse, tagformat: dominated by ConvertibleTo of the same pair, guaranteed by the mangler's constructor test, a struct-to-struct tag-only conversion under a Kind()==Struct test, or a same-kind scalar conversion", 8)
 	c.rule("index-provenance", "every string/slice index or slice expression in parse and caseconversion uses a range key of the same operand (plus the width of the rune just examined), a constant guarded by a length test, or an offset that was compared with len()", 10)
+	c.rule("valid-on-success", "the (reflect.Value, error) functions of the parse package never return the zero Value with a nil error: a path on which nothing was boxed (a kind routed to a parser but missing from the boxing switch) must be infeasible for every reflect.Kind", 3)
+	c.rule("overflow-after-convertible", "the flag source calls its reflect-Overflow helper only after value.Type().ConvertibleTo(T) succeeded for the very type T the target was allocated with (reflect Overflow* panics on receivers of other kind classes)", 1)
+	c.rule("map-results-made", "the map-returning functions of the parse package return, with a nil error, only make-built maps (the flag helpers assign into the parsed map on a later Set; a nil map would panic)", 3)
 	c.rule("loop-progress", "every loop that is not a range loop in parse, caseconversion, transform, helper, ptrify has a recognised progress argument (counted index, scanner advance, type/value descent, map iterator, shrinking string over non-empty constants, channel drain)", 8)
 
 	w := c.W
@@ -127,6 +130,9 @@ func runC16(c *Ctx) {
 
 	c16SetConvert(c, kc)
 	c16Index(c)
+	c16MapResultsMade(c)
+	c16OverflowAfterConvertible(c)
+	c16ValidOnSuccess(c)
 	c16Loops(c)
 }
 
